@@ -6,9 +6,7 @@ from .readerlib import both_modes, dump_dict
 ID = 'C08'
 TARGETS = ['theories/Properties/C08.vo']
 THEOREMS = core.theorems_of(ID)
-LEVEL = ('proved: the row decoder ignores any suffix of a payload (Layout/Sem.v dec_ignores_suffix, for the regenerated tables of every version) and an '
-         'undeclared-to-peppi event code leaves the parser state unchanged apart from the byte count (Model/Parse.v); reader model tied to the code by '
-         'differential runs; oracle on the real reader: the game with insertions / extra bytes equals the game without')
+LEVEL = ('proved (Properties/C08.v): an event with a code peppi does not know is consumed whole and changes nothing but the byte count, in any state; a whole file with such events interleaved anywhere (also between splitter blocks and inside frames) parses to exactly the game of the file without them; extra trailing payload bytes are ignored by the row decoder and the block decoders; splitter handling = constants regenerated from handle_splitter_event; differential run with insertions at every boundary and newer-version payloads, full and skip-frames reads')
 
 
 def strip(lines, extra=False):
